@@ -79,8 +79,12 @@ def gen(ch, tier):
                          ("getitem", 2), ("mutate_add", 10), ("mutate_remove", 4), ("mutate_annotator", 2), ("cont", 2), ("ref", 2)])
         ci, cj, di = ch.randint(0, MAX_CONT - 1), ch.randint(0, MAX_CONT - 1), ch.randint(0, 2)
         if k == "cont":
-            ops.append(["cont", world.gen_continuum(ch.sub(f"c{i}"), max_annot=3, max_units=5, labelset="alpha",
-                                                    allow_empty_annot=False, min_total_units=2)])
+            spec = world.gen_continuum(ch.sub(f"c{i}"), max_annot=3, max_units=5, labelset="alpha",
+                                       allow_empty_annot=False, min_total_units=2)
+            if ch.coin(0.3):
+                # an annotator declared without any unit (merges / copies must not share or lose it)
+                spec["annotators"].append([ch.choice(["Yan", "Zed"]), []])
+            ops.append(["cont", spec])
         elif k == "ref":
             ops.append(["cont", _ref_spec(ch.sub(f"r{i}"))])
         elif k == "align":
